@@ -154,6 +154,16 @@ func init() {
 		"verifFloatGe8": func(fr *frame, args []value) value {
 			return binop(fr.i, token.GEQ, nil, args[0], args[1])
 		},
+		"verifDeepEqual": func(fr *frame, args []value) value {
+			a, b := args[0].(iface), args[1].(iface)
+			if !sameType(a.t, b.t) {
+				return false
+			}
+			if a.t == nil {
+				return true
+			}
+			return fr.i.tc.mkBool(fr.i.valueEqualTerm(a.v, b.v))
+		},
 		"verifTier": func(fr *frame, args []value) value { return fr.i.run.opts.Tier },
 		"verifAssertKnown": func(fr *frame, args []value) value {
 			// verifAssertKnown(c, label, kfID, inClass): like verifAssert, but if kfID is a
